@@ -34,6 +34,29 @@ CLAIMED = {
              'failure kind as call / notification / at each batch position with marker strings searched for in the response.',
         note=DISP_NOTE, technique='Coq proof (verdict lemmas over the dispatcher model, constants regenerated from source) + correspondence by vm_compute',
         design='6 C03'),
+    'C07': dict(
+        text='Theorems about the composition client-model o wire round trip (C05) o dispatcher-model (C01-C03) o client receive path: '
+             'client.call returns exactly what the registered function returns and raises the function\'s protocol error with the same '
+             'code/message/data as the class registered for the code (foreign exceptions as -32000); notifications return and raise nothing '
+             'and run the method once; a batch of ANY length in any notation yields the aligned responses of its calls in call order (nothing '
+             'for an all-notification batch) with the concatenated per-element server log; ids on the wire are pairwise distinct for every '
+             'generator (else building raises); the batch notations produce identical wire documents. Correspondence: a real client connected '
+             'to a real dispatcher by a loop-back transport, all notations x sync/async on both sides x generators x strict.',
+        note='trusted: Coq kernel + vm_compute; hand-written models of client.py / dispatcher.py validated on generated inputs only; the JSON text '
+             'codec between the halves is an oracle (identity on JSON values, exercised on every case); known finding F7 (uuid generator) '
+             'suppresses exactly the failures of calls made with the uuid generator.',
+        technique='Coq proof (composition of the client, wire and dispatcher models; aligned-responses induction over batches) + loop-back correspondence by vm_compute',
+        design='6 C07'),
+    'C08': dict(
+        text='Theorems about the model of BaseAbstractClient._relate / BaseBatch._relate / BatchResponse.from_json: strict mode rejects a '
+             'single response with a differing non-null (typed) id; a batch is accepted iff its non-null response ids are exactly the call '
+             'ids (missing / extra -> IdentityError; repeated ids and malformed bodies are refused at deserialisation); when accepted, for '
+             'EVERY permutation of the server array the responses of the calls come back in the order the calls were made, each with its '
+             'call\'s id, null-id responses after them, the multiset unchanged; server errors and batch-level errors are raised. '
+             'Correspondence: every permutation / omission / duplication / addition / type confusion for batches of <= 3 (4) calls.',
+        note='trusted: Coq kernel + vm_compute; hand-written model of client.py validated on generated inputs only; scripted transport.',
+        technique='Coq proof (Permutation-based reasoning about the id->response map, induction over the request list) + correspondence by vm_compute',
+        design='6 C08'),
     'C12': dict(
         text='Theorems for stacks of ANY height: with no short-circuit the trace is Enter 0..k-1, inner handler on the fully rewritten '
              'request, Exit k-1..0 and the chain returns what the outermost returns; a short-circuiting middleware makes the outcome '
